@@ -16,6 +16,7 @@ let () =
     | "qword" -> C15.model_line, None
     | "hdoc" -> C15.hdoc_line, None
     | "ptok" -> Ptok.model_line, Some Ptok.judge_line
+    | "dtok" -> Ptok.model_line, Some Ptok.dtok_judge
     | "xp" -> Xp.model_line, None
     | "xp13" -> Xp.model_line, Some Xp.judge13
     | "xp14" -> Xp.model_line, Some Xp.judge14
